@@ -118,6 +118,42 @@ theorem deque_last_task_arbitration (cfg : Deque.Cfg) (oprog : List Deque.OOp) (
     rw [List.count_append] at this
     omega
 
+/-- **No slot between `head` and `tail` refers to a freed proxy** (nor to any task already handed out): if the spawned
+tasks have distinct ids then in every quiescent state the ids of the proxies the owner found empty and freed in
+`get_task_impl` — and of every other returned task — are disjoint from the ids of the tasks resident in `[head, tail)`.
+In particular the cell of an empty proxy that was freed while `tasks_omitted` was set (the owner had skipped tasks of
+another isolation above it, so `tail` is restored ABOVE that cell afterwards) has been overwritten with `nullptr`:
+memory handed back to the small-object pool is never reachable from the deque. -/
+theorem deque_freed_proxy_unreachable (cfg : Deque.Cfg) (oprog : List Deque.OOp) (tprogs : List (List Nat))
+    (hcfg : 0 < cfg.granule ∧ 0 < cfg.minSize) (sched : List Tid)
+    (s : Deque.St) (hs : s = (Deque.sys cfg oprog tprogs).run sched)
+    (hd : (s.spawned.map (·.id)).Nodup) (hq : Deque.Quiescent s) :
+    (∀ x ∈ s.own.freed, ∀ y ∈ Deque.resident s, y.id ≠ x.id) ∧
+    (∀ x ∈ Deque.returned s, ∀ y ∈ Deque.resident s, y.id ≠ x.id) := by
+  obtain ⟨_, hp, _⟩ := deque_conservation cfg oprog tprogs hcfg sched s hs
+  have h1 : ((Deque.returned s ++ Deque.resident s).map (·.id)).Nodup := ((hp hq).map _).nodup_iff.mp hd
+  rw [List.map_append] at h1
+  have h2 := (List.nodup_append.mp h1).2.2
+  have key : ∀ x ∈ Deque.returned s, ∀ y ∈ Deque.resident s, y.id ≠ x.id := by
+    intro x hx y hy e
+    exact h2 x.id (List.mem_map_of_mem hx) y.id (List.mem_map_of_mem hy) e.symm
+  refine ⟨fun x hx => key x ?_, key⟩
+  unfold Deque.returned
+  exact List.mem_append_left _ (List.mem_append_right _ hx)
+
+/-- non-vacuity — the stale-slot window: task 1 (isolation 1) was mailed and its proxy is found empty (`dead`), task 2
+(isolation 2) lies above it; `get_task(isolation 1)` skips task 2 (`tasks_omitted`), frees the empty proxy, overwrites
+its cell with `nullptr` and restores `head`/`tail`: afterwards the pool is published again with exactly
+`[nullptr, task 2]` between `head = 0` and `tail = 2`. -/
+example :
+    let s := (Deque.sys { minSize := 4, granule := 2 }
+        [.spawn { id := 1, iso := 1, dead := true }, .spawn { id := 2, iso := 2 }, .get 1] []).run
+      ([0, 0, 0, 0, 0, 0, 0, 0, 0, 0, 0, 0, 0, 0, 0, 0, 0, 0, 0, 0, 0, 0, 0, 0, 0] : List Tid)
+    s.own.ops = [] ∧ s.own.freed.map (·.id) = [1] ∧ s.own.out = [none] ∧ s.head = 0 ∧ s.tail = 2 ∧
+      (s.pool.take 2) = [.hole, .item { id := 2, iso := 2 }] ∧ (Deque.resident s).map (·.id) = [2] ∧
+      s.lw = .pub 1 ∧ s.bad = false := by
+  decide
+
 /-- non-vacuity — the last-task window itself (pool of 4 cells): the thief does `++head`, the owner does `--tail`, the
 owner sees `head > T` and goes for the lock, the thief sees `H > tail`, rolls `head` back and returns nothing, the
 owner re-reads `head` under the lock (`H0 == T`), resets the pool and takes the task: it is returned exactly once and
